@@ -34,9 +34,8 @@ case "$CMD" in
   cp /verif/known_findings.json "$WS/verif/" 2>/dev/null
   BIN=$(python3 -c "
 import json,glob,os
-for f in sorted(glob.glob('$WS/harness/*/checks.json')):
-    for c in json.load(open(f)):
-        if c['id']=='$ID': print(os.path.basename(os.path.dirname(f)))
+for f in sorted(glob.glob('$WS/harness/*/checks.d/$ID.json')):
+    print(os.path.basename(os.path.dirname(os.path.dirname(f))))
 ")
   [ -z "$BIN" ] && { echo "no check registered for $ID"; exit 2; }
   (cd "$WS/harness" && CARGO_NET_OFFLINE=true CARGO_TARGET_DIR="$WS/target" cargo build --release --offline -p "$BIN" >"$WS/build.log" 2>&1) || { echo "BUILD FAILED"; tail -30 "$WS/build.log"; exit 2; }
